@@ -221,7 +221,7 @@ theorem prependTail_core {f : Forest} {p c : Nat} {t : HTree} {vp : Value} {Lp :
             ((X.setValue kb.handle (.text (tc ++ tb))).spliceOut c, true) := by
           rw [hfirst, hN]
           exact Forest.addConsolidate_next hc (hXtext.trans htd) (fun a h => by cases h)
-            ((Forest.textOf_of_get hkb_get).trans htb)
+            ((Forest.textOf_of_get hkb_get).trans htb) hkbc
         have hflow := F.flow2 rfl kb.handle (.text (tc ++ tb))
           ⟨kb, by rw [hLp]; simp, rfl⟩ hkbc hleaf_t (by
           intro k' hk' e
